@@ -1,7 +1,7 @@
 (* PolicyGE: the definitions generated from vakt/policy.py on this run equal the hand-written attribute machine
    (Model/Policy.v section 2). *)
 From Coq Require Import ZArith NArith List Bool Lia.
-From Vakt Require Import Base.PyMonad Base.PyVal Model.Rules Model.Policy.
+From Vakt Require Import Base.PyMonad Base.PyVal Model.Rules Model.Policy Proofs.PyValP.
 From VaktGen Require Import PolicyG.
 Import ListNotations.
 
@@ -106,3 +106,69 @@ Proof.
 Qed.
 Print Assumptions calculate_type_eq.
 Print Assumptions ctor_eq.
+
+(* ---------- Policy.from_json after the JSON text was decoded into properties ---------- *)
+Lemma del_key_absent n (s : list (pstr * aval)) : lookup n s = None -> del_key n s = s.
+Proof.
+  induction s as [|[k v] r IH]; cbn; [reflexivity|].
+  destruct (pstr_eqb n k); [discriminate|]. intros H. rewrite IH by exact H. reflexivity.
+Qed.
+
+Lemma lookup_del_key_other k n (s : list (pstr * aval)) :
+  pstr_eqb n k = false -> lookup k (del_key n s) = lookup k s.
+Proof.
+  intros H. induction s as [|[k' v] r IH]; cbn; [reflexivity|].
+  destruct (pstr_eqb n k') eqn:E.
+  - rewrite IH. destruct (pstr_eqb k k') eqn:E2; [|reflexivity].
+    apply PyValP.pstr_eqb_eq in E, E2. subst. rewrite PyValP.pstr_eqb_refl in H. discriminate.
+  - cbn. rewrite IH. reflexivity.
+Qed.
+
+Lemma from_json_eq props : PolicyG.from_json_g props = from_props props.
+Proof.
+  unfold PolicyG.from_json_g, from_props, has_key. cbn [seqc fj_props fj_context_rules].
+  destruct (lookup n_uid props) as [uid|] eqn:U; cbn [negb seqc bind fj_props fj_context_rules]; [|reflexivity].
+  assert (FIN : forall cr props1 P3, P3 = del_key n_type ((n_context, cr) :: del_key n_context props1) ->
+            lookup n_uid props1 = Some uid ->
+            call_ctor P3 =
+            (let props3 := del_key n_type ((n_context, cr) :: del_key n_context props1) in
+             if forallb (fun kv => known_ctor_key (fst kv)) props3
+             then ctor {| c_uid := uid; c_subjects := prop_or n_subjects props3 (ASeq true []);
+                          c_effect := prop_or n_effect props3 (AV (VStr s_deny));
+                          c_resources := prop_or n_resources props3 (ASeq true []);
+                          c_actions := prop_or n_actions props3 (ASeq true []);
+                          c_context := cr; c_rules := prop_or n_rules props3 (AV VNone);
+                          c_description := prop_or n_description props3 (AV VNone) |}
+             else Raise ETypeError)).
+  { intros cr props1 P3 -> U1. unfold call_ctor. cbn zeta.
+    set (props3 := del_key n_type ((n_context, cr) :: del_key n_context props1)).
+    destruct (forallb (fun kv => known_ctor_key (fst kv)) props3); [|reflexivity].
+    assert (E1 : lookup n_uid props3 = Some uid).
+    { unfold props3. rewrite lookup_del_key_other by reflexivity. cbn [lookup].
+      change (pstr_eqb n_uid n_context) with false. cbn iota.
+      rewrite lookup_del_key_other by reflexivity. exact U1. }
+    assert (E2 : prop_or n_context props3 (AV VNone) = cr).
+    { unfold prop_or, props3. rewrite lookup_del_key_other by reflexivity. cbn [lookup].
+      rewrite PyValP.pstr_eqb_refl. reflexivity. }
+    rewrite E1, E2.
+    match goal with |- _ = ctor ?a => exact (ctor_eq a) end. }
+  assert (WRAP : forall (m : res pstate) (st : from_json_g_st),
+            match (v__ <- m ;; Ok (Ret (st, v__)) : res (ctl from_json_g_st (from_json_g_st * pstate))) with
+            | Ok (Ret (_, r__)) => Ok r__
+            | Raise e__ => Raise e__
+            | _ => Raise EUnmodelled
+            end = m).
+  { intros m st. destruct m; reflexivity. }
+  Ltac fin FIN WRAP U :=
+    match goal with |- context [lookup n_type ?X] => destruct (lookup n_type X) eqn:T end;
+    cbn [seqc bind fj_props fj_context_rules]; rewrite WRAP;
+    [apply FIN; [reflexivity|exact U] | apply FIN; [symmetry; apply del_key_absent; assumption|exact U]].
+  destruct (lookup n_context props) as [c|] eqn:C; cbn [bind seqc fj_props fj_context_rules].
+  - fin FIN WRAP U.
+  - destruct (lookup n_rules props) as [r|] eqn:R; cbn [bind seqc fj_props fj_context_rules].
+    + assert (U' : lookup n_uid (del_key n_rules props) = Some uid)
+        by (rewrite lookup_del_key_other by reflexivity; exact U).
+      fin FIN WRAP U'.
+    + rewrite (del_key_absent n_rules props R). fin FIN WRAP U.
+Qed.
+Print Assumptions from_json_eq.
